@@ -4,6 +4,7 @@ from vmon import gen
 from vmon import oracle as orc
 from vmon.checks.common import wrapper_agrees, obs, fail, random_prefix, apply_prefix
 
+SCALE = True   # worker: every fortieth case is blown up by scale_case below
 PROP = "C07"
 MONITORS = ["normalise"]
 INSITU = {"k": ""}
@@ -46,6 +47,33 @@ def make_zero_length_case(rng, i):
         msgs += [["on", 1 - c, 64, 70], ["wait", 6], ["off", 1 - c, 64]]
     return {"msgs": msgs, "paired": True, "prefix": [], "zero_length": where}
 
+
+def scale_case(case, i):
+    import random
+    r = random.Random(f"c07-big:{i}")
+    shape = ["strikes_without_release", "deeply_nested", "big_paired", "big_damaged"][(i // 40) % 4]
+    c, p = r.choice([0, 9]), r.choice([38, 60])
+    if shape == "strikes_without_release":
+        # a drum line that never sends note-offs: hundreds of strikes of one key left open
+        msgs = []
+        for k in range(r.choice([300, 520, 700])):
+            msgs += [["on", c, p, 1 + k % 127], ["wait", r.choice([2, 3, 6])]]
+        msgs += [["on", c, p + 1, 5], ["wait", 4], ["off", c, p + 1]]
+    elif shape == "deeply_nested":
+        n = r.choice([300, 400])
+        msgs = []
+        for k in range(n):
+            msgs += [["on", c, p, 1 + k % 127], ["wait", 2]]
+        for k in range(n):
+            msgs += [["off", c, p], ["wait", 1]]
+    else:
+        msgs = gen.msgs_from_notes(gen.big_notes(i, chans=(0, 1), pitches=(60, 61, 62), lmin=1, lmax=30, gap=(0, 20)))
+        if shape == "big_damaged":
+            for _ in range(20):
+                del msgs[r.randrange(len(msgs))]
+    case.update({"msgs": msgs, "paired": shape in ("deeply_nested", "big_paired"), "prefix": [], "big": shape})
+    case.pop("motif_times", None)
+    case.pop("zero_length", None)
 
 def make_case(rng, i, tier):
     if i % 14 == 6:
